@@ -7,7 +7,9 @@
    GPU shares are counted in units of 1/64 GPU (64 = one whole GPU).
    ru.lazy_bisect is not modelled: the sequence of checks/skips it performs is
    an input (`strategy`); theorems quantify over every strategy.
-   Not modelled: raptor forwarding, partitions, the 512 bulk limit, sleeping.
+   Not modelled here: partitions, the 512 bulk limit, sleeping.  Raptor forwarding
+   (tasks with a raptor_id: relay to raptor masters, backlog, cancel in the
+   backlog) is RP.Relay.Model; requests here carry no raptor_id.
    Definitions only. *)
 From Coq Require Import ZArith List Bool.
 Import ListNotations.
